@@ -927,6 +927,45 @@ func runOnce(c *Ctx, exec *ssa.Function, fnField, onceField, memoField string) {
 			}
 		}
 	}
+	// the memo is a Result of its own whose only content is a copy (slices.Clone / append(nil, …)) of the very slice the
+	// reflective call returned — the same values, in a backing array no caller can write through
+	if al, ok := mstore.Val.(*ssa.Alloc); ok && !same && core.NamedOf(al.Type()) == "Result" {
+		onlyOut, copied := true, false
+		for _, ref := range *al.Referrers() {
+			fa, isFA := ref.(*ssa.FieldAddr)
+			if !isFA {
+				continue
+			}
+			fr, _ := core.AsFieldAddr(fa)
+			for _, r2 := range *fa.Referrers() {
+				st, isSt := r2.(*ssa.Store)
+				if !isSt || st.Addr != ssa.Value(fa) {
+					continue
+				}
+				if fr.Field != "out" {
+					onlyOut = false
+					continue
+				}
+				var src ssa.Value
+				if cl, isC := st.Val.(*ssa.Call); isC {
+					if pk, fn := core.StdCallee(cl.Common().StaticCallee()); pk == "slices" && fn == "Clone" && len(cl.Common().Args) == 1 {
+						src = cl.Common().Args[0]
+					}
+					if core.CalleeName(cl.Common()) == "builtin.append" && len(cl.Common().Args) == 2 && core.IsNilConst(cl.Common().Args[0]) {
+						src = cl.Common().Args[1]
+					}
+				}
+				if src != nil {
+					if rvv, isV := rv.(ssa.Value); isV && (core.Strip(src) == rvv || p.Bind(core.Strip(src)) == rvv) {
+						copied = true
+					}
+				}
+			}
+		}
+		if onlyOut && copied {
+			same = true
+		}
+	}
 	c.R.Add("ONCE-O2", "executor|memo-is-returned-result", "executor", p.InstrPos(mstore), same,
 		"the memoized Result is the very Result returned by the first execution", fmt.Sprintf("ok=%v", same))
 
